@@ -71,7 +71,7 @@ pub fn cells() -> Vec<(&'static str, Vec<f64>)> {
     for k in [1., 2., 3., 5., 50., 200.] {
         c.push(("ChiSquared", vec![k]));
     }
-    for nu in [0.5, 1., 1.5, 2., 2.5, 3., 3.5, 7.9, 30., 30.5, 200.] {
+    for nu in [0.5, 1., 1.5, 2., 2.5, 3., 3.5, 7.9, 30., 30.5, 36., 48., 70., 200.] {
         c.push(("T", vec![nu]));
     }
     for l in [1e-3, 0.5, 1., 5., 9.99, 10., 42., 149., 150., 400., 1e3, 1e6, 1e10] {
@@ -459,8 +459,9 @@ impl Prop for C03 {
             (n, script)
         } else {
             let base_n = if tier == Tier::Quick { 200_000 } else { 4_000_000 };
-            // the last fault-free visit of every cell is a deep one (10x the draws, band / sqrt(10))
-            let deep = visit == clean_visits - 1;
+            // the last two fault-free visits of every cell are deep ones (10x the draws, band / sqrt(10)):
+            // one on the grid point itself, one off-grid
+            let deep = visit + 2 >= clean_visits;
             let base_n = if deep { base_n * 10 } else { base_n };
             let base_n = if *law == "MVN" { base_n / (4 * (base[0] as usize).max(4) / 4) } else { base_n };
             // bulk sizes: round numbers, non-round numbers, and multiples of a power-of-two block
